@@ -99,7 +99,8 @@ impl Ctx {
             Some((b, rest)) => Some(imp.ends_with(&format!(" {} {}", hx(b), hx(rest))) && imp.starts_with("OK")),
             None => Some(!imp.starts_with("PANIC")),
         };
-        self.out.case("deframe", &[hx(bytes)],
+        // the model runs the reader machine of the theorems under this consumer's request sizes (and the one-shot specification)
+        self.out.case("deframe", &[hx(bytes), consumer.to_string(), nums(&reqs)],
             &["deframe".into(), hx(bytes), nums(&src), consumer.to_string(), nums(&reqs)], &imp, pred, cls);
     }
     fn frame_new_case(&mut self, tag: u8, ks: &[u32], clsn: u8, body: &[u8], rest: &[u8], cls: &str) {
@@ -420,7 +421,7 @@ fn replay(cx: &mut Ctx, a: &[String]) {
             let consumer: u8 = a.get(3).map(|s| s.parse().unwrap()).unwrap_or(0);
             let reqs = parse_nums(a.get(4).map(|s| s.as_str()).unwrap_or("_"));
             let imp = lib_deframe(&bytes, &src, consumer, &reqs);
-            cx.out.case("deframe", &[hx(&bytes)], a, &imp, Some(!imp.starts_with("PANIC")), "replay");
+            cx.out.case("deframe", &[hx(&bytes), consumer.to_string(), nums(&reqs)], a, &imp, Some(!imp.starts_with("PANIC")), "replay");
         }
         "emit_lit" | "emit_lit_comp" | "emit_lit_fixed" | "emit_lit_comp_fixed" => {
             let k: u32 = a[1].parse().unwrap();
